@@ -2987,11 +2987,26 @@ evhttp_make_request(struct evhttp_connection *evcon,
     struct evhttp_request *req,
     enum evhttp_cmd_type type, const char *uri)
 {
+	const unsigned char *cp;
+
 	/* We are making a request */
 	req->kind = EVHTTP_REQUEST;
 	req->type = type;
 	if (req->uri != NULL)
 		mm_free(req->uri);
+	req->uri = NULL;
+	/* The request target is written verbatim into the request line: it
+	 * must not be empty or contain blanks or control characters (CR/LF
+	 * would add header fields or a whole request). */
+	for (cp = (const unsigned char *)uri; *cp; ++cp) {
+		if (*cp <= 0x20 || *cp == 0x7f)
+			break;
+	}
+	if (*cp != '\0' || cp == (const unsigned char *)uri) {
+		event_warnx("%s: invalid character in request target", __func__);
+		evhttp_request_free_auto(req);
+		return (-1);
+	}
 	if ((req->uri = mm_strdup(uri)) == NULL) {
 		event_warn("%s: strdup", __func__);
 		evhttp_request_free_auto(req);
